@@ -226,7 +226,7 @@ func decHistory(in []int64) history {
 var gvr = metav1.GroupVersionResource{Group: "scheduling.volcano.sh", Version: "v1beta1", Resource: "queues"}
 
 type world struct {
-	// set once an admitted request has closed a cycle of parent links: the real code's
+	// set once an admitted request has closed a cycle of parent links (or given root a parent): the real code's
 	// recursions over such a lister need not terminate, so nothing more is run (verdict 98)
 	poisoned bool
 	cfg      config
@@ -306,12 +306,15 @@ const (
 	vCycle        = 19
 	vSubtreeDepth = 20
 	vNotInvoked   = 21
+	vRootParent   = 22
 	vNotRun       = 98
 )
 
 func classify(msg string) int64 {
 	has := func(s string) bool { return strings.Contains(msg, s) }
 	switch {
+	case has("root queue cannot have a parent"):
+		return vRootParent
 	case has("cannot use itself as parent"):
 		return vSelfParent
 	case has("cannot be moved under its own descendant"):
@@ -392,8 +395,13 @@ func (w *world) step(r request) int64 {
 	return v
 }
 
-// cyclic: some queue does not come to an end ("" / "root" / a missing queue) within 64 parent links
+// cyclic: some queue does not come to an end ("" / "root" / a missing queue) within 64 parent
+// links, or the root queue itself has a parent (it is then a child in the parent index and the
+// downward recursions can come back to it)
 func (w *world) cyclic() bool {
+	if r := w.get(1); r != nil && r.Spec.Parent != "" {
+		return true
+	}
 	for _, o := range w.indexer.List() {
 		p := o.(*schedulingv1beta1.Queue).Spec.Parent
 		k := 0
@@ -630,29 +638,10 @@ func laws(sel int, in, got []int64, law func(lsel int, lin []int64, sig string))
 	for i := range h.reqs {
 		lin = append(lin, got[2*i+1])
 	}
-	// known finding: an admitted re-parenting of a queue that has children is not
-	// re-validated against the capability of the new ancestors
-	w := newWorld(h.cfg, h.q0)
-	movedSubtree := false
-	for i, r := range h.reqs {
-		if r.kind == kUpdate && got[2*i+1] == vAllowed {
-			if old := w.get(r.q.name); old != nil && specOf(old).parent != r.q.parent {
-				kids, _ := w.indexer.ByIndex(router.QueueParentIndexName, qname(r.q.name))
-				if len(kids) > 0 {
-					movedSubtree = true
-				}
-			}
-		}
-		w.step(r)
-	}
-	capSig := ""
-	if movedSubtree {
-		capSig = "C10-reparent-subtree-capability"
-	}
 	law(101, lin, "")
 	law(102, lin, "")
 	law(103, lin, "")
-	law(104, lin, capSig)
+	law(104, lin, "")
 	law(105, lin, "")
 	law(106, append(append([]int64{}, lin...), got[len(got)-1]), "")
 }
